@@ -33,7 +33,7 @@ open VlsModel.Lemmas.EnforcementFn
     model's update -/
 theorem C01_fn_validator_set_next_holder_commit_num (f : String → Bool) (c : Chan) (info : Nat)
     (h : c.next + 1 ≤ Rs.U64_MAX) :
-    Validator.set_next_holder_commit_num f (toES c) (c.next + 1) info info
+    Validator.set_next_holder_commit_num f () (toES c) (c.next + 1) info info
       = .ok (toES { c with next := c.next + 1, cur := some info }) := by
   have h1 : ¬ c.next + 1 = c.next := by omega
   simp [Validator.set_next_holder_commit_num, EnforcementState.set_next_holder_commit_num, toES, Rs.uadd, h,
@@ -43,14 +43,14 @@ theorem C01_fn_validator_set_next_holder_commit_num (f : String → Bool) (c : C
 theorem C01_fn_validator_set_next_holder_commit_num_refused (f : String → Bool) (c : Chan) (num info sig : Nat)
     (hf : f "policy-revoke-new-commitment-signed" = true)
     (h : c.next + 1 ≤ Rs.U64_MAX) (h1 : num ≠ c.next) (h2 : num ≠ c.next + 1) :
-    Validator.set_next_holder_commit_num f (toES c) num info sig
+    Validator.set_next_holder_commit_num f () (toES c) num info sig
       = .error (.err "policy-revoke-new-commitment-signed") := by
   simp [Validator.set_next_holder_commit_num, toES, Rs.uadd, h, h1, h2, policyErr_keep f _ hf]
 
 /-- `num = next` passes the guard (`num != current && …` is false) and trips `assert_eq!(num, current + 1)` -/
 theorem C01_fn_validator_set_next_holder_commit_num_same (f : String → Bool) (c : Chan) (info sig : Nat)
     (h : c.next + 1 ≤ Rs.U64_MAX) :
-    Validator.set_next_holder_commit_num f (toES c) c.next info sig = .error .panic := by
+    Validator.set_next_holder_commit_num f () (toES c) c.next info sig = .error .panic := by
   have h1 : ¬ c.next = c.next + 1 := by omega
   simp [Validator.set_next_holder_commit_num, EnforcementState.set_next_holder_commit_num, toES, Rs.uadd, h,
         Rs.assert, h1, Rs.panic]
@@ -58,7 +58,7 @@ theorem C01_fn_validator_set_next_holder_commit_num_same (f : String → Bool) (
 /-- Whatever the policy filter: a returned state means `num = next + 1`, and it is the model's state. -/
 theorem C01_fn_holder_counter_only_steps (f : String → Bool) (c : Chan) (num info : Nat) (e : ES)
     (h : c.next + 1 ≤ Rs.U64_MAX)
-    (hok : Validator.set_next_holder_commit_num f (toES c) num info info = .ok e) :
+    (hok : Validator.set_next_holder_commit_num f () (toES c) num info info = .ok e) :
     num = c.next + 1 ∧ e = toES { c with next := c.next + 1, cur := some info } := by
   by_cases h2 : num = c.next + 1
   · subst h2
@@ -92,7 +92,7 @@ theorem C01_fn_activate_model (c : Chan) (info : Nat) (h0 : c.next = 0) (hs : c.
     model's new state read as an `EnforcementState` is the generated result of `set_next_holder_commit_num(n + 1)` -/
 theorem C01_fn_revoke_model (f : String → Bool) (c : Chan) (info : Nat) (h : c.next + 1 ≤ Rs.U64_MAX)
     (hc : c.closed = false) (hs : c.nextInfo = some info) (hok : (revoke c c.next).out.res = .ok) :
-    Validator.set_next_holder_commit_num f (toES c) (c.next + 1) info info = .ok (toES (revoke c c.next).c)
+    Validator.set_next_holder_commit_num f () (toES c) (c.next + 1) info info = .ok (toES (revoke c c.next).c)
       ∧ (revoke c c.next).c.nextInfo = none := by
   rw [C01_fn_validator_set_next_holder_commit_num f c info h]
   have hu : ¬ c.next + 1 > U64.MAX := by
@@ -317,11 +317,11 @@ theorem C01_fn_release_commitment_secret {K S : Type} (pt : Nat → Nat)
       simp [b, b']
 
 -- non-vacuity: a channel with `next = 3` and a staged commitment
-example : Validator.set_next_holder_commit_num strict (toES { slot := .ready, next := 3, cur := some 7 }) 4 9 9
+example : Validator.set_next_holder_commit_num strict () (toES { slot := .ready, next := 3, cur := some 7 }) 4 9 9
     = .ok (toES { slot := .ready, next := 4, cur := some 9 }) := by rfl
-example : Validator.set_next_holder_commit_num strict (toES { slot := .ready, next := 3, cur := some 7 }) 5 9 9
+example : Validator.set_next_holder_commit_num strict () (toES { slot := .ready, next := 3, cur := some 7 }) 5 9 9
     = .error (.err "policy-revoke-new-commitment-signed") := by rfl
-example : Validator.set_next_holder_commit_num (fun _ => false) (toES { slot := .ready, next := 3 }) 5 9 9
+example : Validator.set_next_holder_commit_num (fun _ => false) () (toES { slot := .ready, next := 3 }) 5 9 9
     = .error .panic := by rfl
 
 end VlsModel.Props.C01Fn
